@@ -5,11 +5,18 @@ side file and SIGKILL itself.
 Run as   /venv/bin/python -m harness.props.c17_child <spec.json>      (cwd = the verif directory)
 
 spec = {"file": path, "mode": "w"|"a"|"r", "seed": int, "phases": [n_ops, ...], "end": END, "out": path,
+        "profiles": [PROFILE per phase] (optional; default all "mixed"),
+        "fapl": [low, high] (optional; names of h5py.h5f.LIBVER_*: nixio.file.make_fapl is replaced by one that sets
+                 these bounds - the harness's probe of what libhdf5 does with them, never used on the checked path),
         "big": bool, "kill": true|false, "compression": "No"|"DeflateNormal"|"Auto"|null (File-level argument;
         null = argument omitted)}
 END  = "flush" | "close" | "exit" | "exit_exc" | "none" | "flush_flush"
 out  = {"flush_points": [flatten(walk) per flush point], "final_walk": full walk at the last flush point,
         "ops": [executed op log], "mode": ..., "end": ..., "pre_walk_equal_post": bool|None}
+
+PROFILE = "mixed" (all operations) | "inplace" (overwrites of stored samples, small appends, timestamp touches:
+          nothing that needs new file space) | "delete_only" | "append_only" | "attrs_only" - a phase of one kind
+          of write between two flush points; creation fall-backs are disabled in such a phase.
 
 Nothing touches the NIX file between the final flush()/close() and the SIGKILL: the side file is an ordinary
 file written with the json module.
@@ -39,6 +46,12 @@ class Gen:
         self.log = []
         self.counter = 0
         self.keep = []      # live handles (open HDF5 ids) at the time of flush()/close()
+        self.profile = "mixed"
+
+    @property
+    def strict(self):
+        """a single-kind phase: operations that find nothing to work on do nothing (no creation instead)"""
+        return self.profile != "mixed"
 
     # ---------------------------------------------------------------- helpers
     def name(self, prefix):
@@ -116,12 +129,16 @@ class Gen:
 
     # ---------------------------------------------------------------- operations
     def op_create_block(self):
+        if self.strict:
+            return ["noop", "create_block"]
         n = self.name("blk")
         c = self.compression()
         self.f.create_block(n, self.rng.choice(["recording", "t", "nix.session"]), compression=c)
         return ["create_block", n, c.value]
 
     def op_create_section(self):
+        if self.strict:
+            return ["noop", "create_section"]
         secs = self.all_sections()
         parent = self.pick(secs) if secs and self.rng.random() < 0.6 else None
         n = self.name("sec")
@@ -132,6 +149,8 @@ class Gen:
         return ["create_section", parent.name, n]
 
     def op_create_property(self):
+        if self.strict:
+            return ["noop", "create_property"]
         sec = self.pick(self.all_sections())
         if sec is None:
             return self.op_create_section()
@@ -215,6 +234,8 @@ class Gen:
         return ["mod_section", sec.name, what]
 
     def op_create_array(self):
+        if self.strict:
+            return ["noop", "create_array"]
         blk = self.block()
         if blk is None:
             return self.op_create_block()
@@ -339,6 +360,8 @@ class Gen:
         return ["dimension", blk.name, da.name, what]
 
     def op_create_frame(self):
+        if self.strict:
+            return ["noop", "create_frame"]
         blk = self.block()
         if blk is None:
             return self.op_create_block()
@@ -366,6 +389,8 @@ class Gen:
         return ["frame_rows", blk.name, df.name, k]
 
     def op_create_group(self):
+        if self.strict:
+            return ["noop", "create_group"]
         blk = self.block()
         if blk is None:
             return self.op_create_block()
@@ -410,6 +435,8 @@ class Gen:
         return ["group_links", blk.name, g.name, what]
 
     def op_create_tag(self):
+        if self.strict:
+            return ["noop", "create_tag"]
         blk = self.block()
         if blk is None:
             return self.op_create_block()
@@ -427,6 +454,8 @@ class Gen:
         return ["create_tag", blk.name, n, k]
 
     def op_create_mtag(self):
+        if self.strict:
+            return ["noop", "create_mtag"]
         blk = self.block()
         if blk is None:
             return self.op_create_block()
@@ -461,6 +490,8 @@ class Gen:
         return ["create_feature", blk.name, t.name, lt.value]
 
     def op_create_source(self):
+        if self.strict:
+            return ["noop", "create_source"]
         blk = self.block()
         if blk is None:
             return self.op_create_block()
@@ -566,6 +597,50 @@ class Gen:
         del cont[nm]
         return ["delete", what, blk.name, nm]
 
+    def op_overwrite(self):
+        """overwrite a few stored samples (no new file space)"""
+        blk = self.block()
+        das = [d for d in self.arrays(blk) if d.dtype.kind in "fiu" and len(d.shape) >= 1 and d.shape[0] > 0
+               and int(np.prod(d.shape)) > 0]
+        if not das:
+            return ["noop", "overwrite"]
+        da = self.pick(das)
+        n0 = da.shape[0]
+        lo = self.rng.randrange(n0)
+        hi = min(n0, lo + self.rng.choice([1, 2, 5, 40]))
+        shp = (hi - lo,) + tuple(da.shape[1:])
+        da[lo:hi] = self.mkdata(da.dtype.str.lstrip("<|="), shp) + 1
+        return ["overwrite", blk.name, da.name, lo, hi]
+
+    def op_small_append(self):
+        """append a few samples (usually inside the chunk that is already allocated)"""
+        blk = self.block()
+        das = [d for d in self.arrays(blk) if d.dtype.kind in "fiu" and len(d.shape) == 1 and d.shape[0] > 0]
+        if not das:
+            return ["noop", "small_append"]
+        da = self.pick(das)
+        k = self.rng.choice([1, 1, 2, 3])
+        da.append(self.mkdata(da.dtype.str.lstrip("<|="), (k,)))
+        return ["small_append", blk.name, da.name, k]
+
+    def op_touch(self):
+        """rewrite a fixed-width attribute (timestamp) of some entity"""
+        blk = self.block()
+        if blk is None:
+            return ["noop", "touch"]
+        ents = [blk] + self.arrays(blk) + list(blk.tags) + list(blk.multi_tags) + list(blk.groups) + \
+            self.all_sources(blk) + self.all_sections(10)
+        e = self.pick(ents)
+        e.force_updated_at(self.rng.randrange(10 ** 9, 2 * 10 ** 9))
+        return ["touch", blk.name, e.name]
+
+    PROFILES = {
+        "inplace": [("overwrite", 5), ("small_append", 4), ("touch", 3), ("write_slice", 2)],
+        "delete_only": [("delete", 1)],
+        "append_only": [("append", 3), ("small_append", 2), ("frame_rows", 1)],
+        "attrs_only": [("attrs", 4), ("mod_section", 2), ("mod_property", 3), ("touch", 2), ("metadata", 1)],
+    }
+
     def remember(self):
         """keep a handle on some entity alive (its HDF5 ids stay open until the process dies)"""
         blk = self.block()
@@ -586,9 +661,10 @@ class Gen:
            ("metadata", 4), ("attrs", 5), ("delete", 7)]
 
     def step(self):
-        names = [n for n, _ in self.OPS]
-        weights = [w for _, w in self.OPS]
-        if not len(self.f.blocks):
+        ops = self.OPS if self.profile == "mixed" else self.PROFILES[self.profile]
+        names = [n for n, _ in ops]
+        weights = [w for _, w in ops]
+        if not len(self.f.blocks) and not self.strict:
             op = "create_block"
         else:
             op = self.rng.choices(names, weights)[0]
@@ -621,10 +697,26 @@ def run(spec):
            "transparent": None}
     end = spec["end"]
     phases = list(spec["phases"])
+    profiles = list(spec.get("profiles") or [])
+    if spec.get("fapl"):
+        # probe of libhdf5 (never the checked path): the property list nixio hands to h5f.create / h5f.open gets
+        # the given library-version bounds
+        import h5py
+        import nixio.file as _nf
+        _lo, _hi = [getattr(h5py.h5f, "LIBVER_" + x.upper()) for x in spec["fapl"]]
+
+        def _probe_fapl(*_a, **_k):
+            fapl = h5py.h5p.create(h5py.h5p.FILE_ACCESS)
+            fapl.set_libver_bounds(_lo, _hi)
+            return fapl
+        _nf.make_fapl = _probe_fapl
 
     def body(f):
         g = Gen(nix, f, rng, bool(spec.get("big", True)))
         for i, n in enumerate(phases):
+            g.profile = profiles[i] if i < len(profiles) and profiles[i] else "mixed"
+            if g.profile != "mixed" and g.profile not in Gen.PROFILES:
+                raise SystemExit("unknown profile %r" % g.profile)
             for _ in range(n):
                 g.step()
             full, flat = _walks(f)          # reads only; everything a getter creates lazily exists now
